@@ -7,12 +7,12 @@ ID = 'C22'
 LEVEL = 'proof'
 PROPS = ['Props/C22.v', 'Findings/C22.v']
 TRUSTED = [
-    'hand-written models Model/C22Memo.v (get / compute / set protocol of the process-wide set-only caches) and Model/C22Sched.v '
+    'hand-written models Model/C22Memo.v (get / compute / set protocol of the process-wide set-only caches), Model/C22Key.v (translator cache key and lookup) and Model/C22Sched.v '
     '(Query._get_translator: get, compare fixed_param_values, pop(key, None), translate, set; decision table of the cross-session guards); tied on '
     'every run by replaying every enumerated schedule on real threads through an instrumented dict subclass installed in place of '
     'db._translator_cache / db._constructed_sql_cache / core.string2ast_cache / core.adapted_sql_cache / decompiling.ast_cache / asttranslation.extractors_cache / utils.lambda_args_cache, and comparing per-thread results, the log '
     'of dict operations and the final cache with the model inside Coq (vm_compute)',
-    'the harness (tools/c22_driver.py): deterministic scheduler (one managed thread runs at a time, one dict operation per grant, hard timeouts)',
+    'the harness (tools/c22_driver.py): deterministic scheduler (one managed thread runs at a time, one dict operation per grant; hard timeouts only report a hang, they classify nothing; all threads are drained and joined)',
     'a single dict operation (get / __setitem__ / __delitem__) is atomic under the GIL; threading.local gives each thread its own db2cache',
     'key soundness (equal keys imply equal computed values) is a hypothesis of C22_setonly; it is the subject of C05 for each cache',
 ]
@@ -25,7 +25,7 @@ ASSUMPTIONS = [
 ]
 RULE = ('exhaustive: translator cache - every (warm value, two thread values) x every interleaving of 3 dict operations per thread, plus seeded '
         'schedules of three threads; set-only caches (string2ast, adapt_sql, decompile, extractors, lambda_args, constructed_sql) - input combinations with equal and different keys x every '
-        'interleaving of two and three threads; cross-thread guard table - every (operation, loaded?) pair; non-trivial = at least two threads '
+        'interleaving of two threads and seeded (thorough: all) interleavings of three threads; cross-thread guard table - every (operation, loaded?) pair; non-trivial = at least two threads '
         'touched the dict between the first and last operation of some thread (a real interleaving) or a guard decision; distinct = distinct cases')
 
 XOPS = ['XReadAttr', 'XReadLazyAttr', 'XAssignAttr', 'XObjSet', 'XDelete', 'XObjLoad', 'XToDict', 'XCollLen', 'XCollIter', 'XCollAdd',
@@ -289,11 +289,12 @@ LEVEL_TEXT = ('Machine-checked proof (Coq 8.16.1): (1) generic memo theorem - fo
               'EVERY schedule, each client receives compute(its input) (instance: Pony\'s process-wide set-only caches); (2) translator cache '
               '(Query._get_translator as coded: get, compare fixed values, pop(key, None), translate, set): under every schedule every thread ends '
               'with a translator for its own parameter value and no schedule raises (the former `del` race - KeyError on get/get/del/del - was '
-              'repaired in the repo, commit e8266c3); (3) cross-thread object use as a guard decision table, proved on the exact complement '
+              'repaired in the repo, commit e8266c3); the key as coded - (code_key, vartypes, left_join, filters) plus the comparison of the recorded fixed parameter '
+              'values at every lookup - is proved sound under the read-set hypothesis of C05 (C22_translator_key_sound; the key components and lookup lines are read from the source on every run); (3) cross-thread object use as a guard decision table, proved on the exact complement '
               'of 12 recorded unguarded cases. Every run replays all schedules of two threads and seeded schedules of three threads on real threads '
               'through an instrumented dict and compares results, operation logs and final caches with the model by vm_compute.')
-LEVEL_NOTE = ('Partial: pre-emption inside one dict operation is the GIL\'s business (trusted); key soundness of each cache is a hypothesis (C05); '
+LEVEL_NOTE = ('Partial: pre-emption inside one dict operation is the GIL\'s business (trusted); key soundness of each set-only cache is a hypothesis of C22_setonly (C05); for the translator cache the key tuple is proved sound relative to the read-set hypothesis; func_vartypes (queries calling user functions) is a further lookup comparison not modelled; '
               'all seven process-wide dict caches are replayed (utils.codeobjects, a write-once id registry, is not); the guard table '
               'is a finite decision table tied by execution, not derived from source. Trusted: Coq kernel + vm_compute; the scheduler harness.')
-TECHNIQUE = 'Coq invariant proofs over all schedules (generic memo table; translator cache protocol); vm_compute refutation witness; vm_compute correspondence with real threads under a deterministic dict-level scheduler; property oracle search'
+TECHNIQUE = 'Coq invariant proofs over all schedules (generic memo table; translator cache protocol); vm_compute correspondence with real threads under a deterministic dict-level scheduler; property oracle search'
 DESIGN_REF = 'DESIGN.md section 5, C22'
